@@ -1143,6 +1143,35 @@ fn loop_oracle(c: &LoopCase, o: &LoopObs, e: &LoopEnc) -> Vec<(String, String)> 
                     bad.push((format!("round {k} announced calls {want:?} but request {} answers {ids:?}", k + 1), "not_answered_exactly_once_in_order".to_string()));
                 }
             }
+            // O8: each output belongs to the call it is filed under (clean rounds): it names the call's tool; a refused
+            // call's output carries the refusal for THIS call id; a bash marker call's stdout carries its own token
+            if let Some(exp) = round.and_then(|r| r.expected.as_ref()) {
+                if exp.len() == new_out.len() && exp.iter().zip(&ids).all(|(c, i)| &c.call_id == i) {
+                    for (call, item) in exp.iter().zip(&new_out) {
+                        let parsed: Value = item["output"].as_str().and_then(|t| serde_json::from_str(t).ok()).unwrap_or(Value::Null);
+                        let mut wrong: Option<String> = None;
+                        if parsed["tool"].as_str() != Some(call.name.as_str()) {
+                            wrong = Some(format!("names tool {} instead of {:?}", parsed["tool"], call.name));
+                        } else if let Some(spec) = &c.choice_spec {
+                            let allowed = spec.as_ref().map(|s| s.contains(&call.name)).unwrap_or(true);
+                            if !allowed {
+                                if parsed["ok"] != json!(false) || !parsed["error"].as_str().map(|m| m.contains(&format!("call_id={}", call.call_id))).unwrap_or(false) {
+                                    wrong = Some("is not the refusal of this call".to_string());
+                                }
+                            } else if call.name == "bash" {
+                                if let Some(tok) = marker_of(&call.args) {
+                                    if !parsed["stdout"].as_str().map(|t| t.contains(&tok)).unwrap_or(false) {
+                                        wrong = Some(format!("does not carry the call's own token {tok}"));
+                                    }
+                                }
+                            }
+                        }
+                        if let Some(w) = wrong {
+                            bad.push((format!("request {}: the output filed under call id {:?} {w}: {}", k + 1, call.call_id, item["output"].as_str().unwrap_or("").chars().take(200).collect::<String>()), "output_of_another_call".to_string()));
+                        }
+                    }
+                }
+            }
             // generic: never two outputs for one call id; only call ids the provider used in this round
             let mut seen = BTreeSet::new();
             for id in &ids {
